@@ -95,17 +95,19 @@ def eval_one(name, tier='quick'):
             return name, pid, 'PATCH-FAILED', msg
         rc, out = S.sh([os.path.join(S.VERIF, 'check'), pid, tier, '--repo', repo, '--out',
                         os.path.join(tmp, 'ev')], cwd=S.VERIF)
-        inherited = S.inherited_reports(base)
+        inherited = S.inherited_reports(base, pid)
         left = [rk for rk in S.reported(out) if rk not in inherited]
         if rc == 1 and not left:
-            rc = 0      # only the defect fixed in /repo since this refactoring was written
+            # only the defect fixed in /repo since this refactoring was written
+            rc = 2 if S.stopped_early(out) else 0
         verdict = {0: 'SILENT', 1: 'FALSE-ALARM', 2: 'CANNOT-CONCLUDE'}.get(rc, 'rc=%d' % rc)
         lines = [l for l in out.strip().splitlines() if l.strip() and 'conda' not in l]
         info = ''
         if rc == 1:
             info = ' | '.join(l for l in lines if ': [' in l)[:400]
         elif rc == 2:
-            info = ' | '.join(l for l in lines if 'ANALYSIS-ERROR' in l)[:300]
+            info = ' | '.join(l for l in lines if 'ANALYSIS-ERROR' in l or
+                              'analysis stopped early' in l)[:300]
         if base != 'HEAD':
             info = (info + ' ' if info else '') + '(on base %s%s)' % (
                 base, '; the inherited defect %s is reported, nothing else'
